@@ -189,6 +189,10 @@ bmph('BitmapFile_ReadPalette', ['C08', 'C11'], reach=EXC2, replace=BR_R + ['Imag
 bmph('BitmapFile_ReadPixels', ['C08', 'C11'], reach=EXC2, replace=BR_R + ['BitmapFile_VerifyPixelSizeMatchesImageDimensionsWithPitch'], trusted=BR_T, flags=['--object-bits', '12'])
 bmph('BitmapFile_ReadIndexed', ['C08', 'C11', 'C09'], reach=EXC2, replace=BR_R + ['BitmapFile_ReadBmpHeader', 'BitmapFile_ReadImageHeader', 'BitmapFile_ReadPalette', 'BitmapFile_ReadPixels'], trusted=BR_T, flags=['--object-bits', '12'], timeout=600,
      what='indexed bitmap loader on arbitrary bytes: safe, short inputs refused, exact consumption, result satisfies the object invariant I_B')
+bmph('BitmapFile_InvertScanLines', ['C08', 'C11'], reach=EXC2, replace=['vec_u8_ctor0', 'vec_u8_reserve', 'vec_u8_insert_range', 'ImageHeader_CalculatePitch0', 'BitmapFile_AbsoluteHeight'], loop_contracts=False,
+     flags=['--unwind', '5', '--unwinding-assertions', '--object-bits', '12'], bounded='bitmaps of at most 3 rows (width up to 2^20, depth and pixel bytes symbolic)', timeout=600,
+     trusted=['std::vector<uint8_t> default construction, reserve and insert(end(), first, last) as assumed abstract contracts'],
+     what='bounded stand-in: InvertScanLines negates the height, keeps the pixel count and reverses the rows byte for byte')
 bmph('BitmapFile_WriteHeaders', ['C08'], reach=EXC2, replace=['Wr_Write', 'ImageHeader_CalculatePitch', 'BmpHeader_Create', 'ImageHeader_Create'], trusted=[WR_TRUST], timeout=600, flags=['--object-bits', '12'],
      what='regenerated bitmap headers: file size and pixel offset fields byte by byte, used-colour count 0, oversize refused with nothing written')
 bmph('BitmapFile_WriteIndexed', ['C08'], reach=EXC2, replace=['Wr_Write', 'vec_Color_resize_fill', 'ImageHeader_CalcMaxIndexedPaletteSize', 'BitmapFile_VerifyIndexedImageForSerialization', 'BitmapFile_VerifyIndexedPaletteSizeDoesNotExceedBitCount',
@@ -231,7 +235,7 @@ sprh('Tileset_PeekIsCustomTileset', ['C09', 'C11'], reach=EXC2, replace=['Rd_Pee
 sprh('Tileset_SwapPaletteRedAndBlue', ['C09'], replace=['Color_SwapRedAndBlue'], what='every entry (arbitrary index) of a palette of any length has red and blue exchanged, green and alpha kept')
 sprh('Tileset_WriteCustomTileset', ['C09', 'C18'], reach=EXC2, replace=['Wr_Write', 'Tileset_ValidateTileset', 'BitmapFile_GetScanLineOrientation', 'BitmapFile_InvertScanLines', 'BitmapFile_AbsoluteHeight', 'Tileset_CalculatePbmpSectionSize',
      'Tileset_CalculatePixelHeaderLength', 'TilesetHeader_Create', 'PpalHeader_Create', 'Tileset_SwapPaletteRedAndBlue', 'SectionHeader_ctor2'], flags=['--object-bits', '12'], timeout=900,
-     trusted=[WR_TRUST, 'BitmapFile::InvertScanLines as an assumed abstract contract (negates the height, same pixel count)', 'SwapPaletteRedAndBlue by its contract (group sprh.Tileset_SwapPaletteRedAndBlue)'],
+     trusted=[WR_TRUST, 'BitmapFile::InvertScanLines by an abstract contract (negates the height, same pixel count; decided for <= 3 rows by group bmph.BitmapFile_InvertScanLines)', 'SwapPaletteRedAndBlue by its contract (group sprh.Tileset_SwapPaletteRedAndBlue)'],
      what='custom tileset writer vs the format description: total length, PBMP length, pixel height, pixel section length, palette entry gi with red/blue exchanged; non-tilesets refused with nothing written')
 sprh('PaletteHeader_ctor', ['C10', 'C18'], replace=['SectionHeader_ctor0'])
 sprh('PaletteHeader_CreatePaletteHeader', ['C10', 'C18'], replace=['SectionHeader_ctor2', 'PaletteHeader_ctor'])
@@ -257,8 +261,8 @@ REL('sprh', 'TilesetHeader_Create', 'value', 'TilesetHeader', nbytes=28)
 REL('sprh', 'PpalHeader_Create', 'value', 'PpalHeader', nbytes=20)
 REL('sprh', 'PaletteHeader_CreatePaletteHeader', 'value', 'PaletteHeader', nbytes=28)
 
-claim('C08', 'Bitmap geometry proved over the full 32-bit domain against an independent integer spec: CalcPixelByteWidth = ceil(w*bpp/8), CalculatePitch = smallest multiple of 4 >= row bytes, the pixel-size check accepts exactly pitch*|height| bytes and refuses negative widths and height INT32_MIN; ImageHeader::Validate / Create, BmpHeader::Create / signature checks, palette-size check and AbsoluteHeight proved by contract; CreateIndexed(bitCount, width, height) proved free of undefined arithmetic for every height (after fix D20: INT32_MIN refused) with headers, palette size and pixel size in agreement; the indexed reader (ReadBmpHeader, ReadImageHeader, ReadPalette, ReadPixels, ReadIndexed) proved on arbitrary bytes: safe, inputs shorter than the headers refused, exact consumption 54 + 4*|palette| + |pixels|, and every returned object satisfies the invariant I_B (non-negative width, height other than INT32_MIN, |pixels| = pitch*|height|, palette within the depth); WriteHeaders proved: file size and pixel offset fields byte by byte, used-colour count 0, oversize refused with nothing written. Bounded stand-ins (<= 3 rows, width/depth/pixels symbolic): WritePixels writes rows padded with zeros to the pitch, pitch*|height| bytes in total; WriteIndexed emits exactly the stream a reader of the written header expects (54 + 4*2^bitCount + pitch*|height|) - this found and fixed defect D18 (partial palettes).',
-      'NOT decided: InvertScanLines (vector insert/move outside the extractor), the 4- and 5-argument CreateIndexed overloads, pixel round trip. ASSUMED: vector resize, BitmapFile default constructor.')
+claim('C08', 'Bitmap geometry proved over the full 32-bit domain against an independent integer spec: CalcPixelByteWidth = ceil(w*bpp/8), CalculatePitch = smallest multiple of 4 >= row bytes, the pixel-size check accepts exactly pitch*|height| bytes and refuses negative widths and height INT32_MIN; ImageHeader::Validate / Create, BmpHeader::Create / signature checks, palette-size check and AbsoluteHeight proved by contract; CreateIndexed(bitCount, width, height) proved free of undefined arithmetic for every height (after fix D20: INT32_MIN refused) with headers, palette size and pixel size in agreement; the indexed reader (ReadBmpHeader, ReadImageHeader, ReadPalette, ReadPixels, ReadIndexed) proved on arbitrary bytes: safe, inputs shorter than the headers refused, exact consumption 54 + 4*|palette| + |pixels|, and every returned object satisfies the invariant I_B (non-negative width, height other than INT32_MIN, |pixels| = pitch*|height|, palette within the depth); WriteHeaders proved: file size and pixel offset fields byte by byte, used-colour count 0, oversize refused with nothing written. Bounded stand-ins (<= 3 rows, width/depth/pixels symbolic): InvertScanLines negates the height, keeps the pixel count and reverses the rows byte for byte; WritePixels writes rows padded with zeros to the pitch, pitch*|height| bytes in total; WriteIndexed emits exactly the stream a reader of the written header expects (54 + 4*2^bitCount + pitch*|height|) - this found and fixed defect D18 (partial palettes).',
+      'NOT decided: the 4- and 5-argument CreateIndexed overloads, pixel content through write + read, flips of more than 3 rows (and hence "twice restores the original" beyond that). ASSUMED: vector resize / construction / reserve / insert(end(), first, last), BitmapFile default constructor.')
 claim('C09', 'Custom tileset header constants and validators proved against an independent description of the format (PBMP / head 0x14, tag count 2, width 32, depth 8, flags 8 / PPAL 1048, head 4, tag count 1 / data 1024 / data 32*h): TilesetHeader::Create/Validate, PpalHeader::Create/Validate, the three section validators, CalculatePixelHeaderLength, CalculatePbmpSectionSize, ValidateTileset (8 bit, width 32, height multiple of 32 in either orientation); Peek proved not to move the position (K_R); PeekIsCustomTileset proved to leave the stream where it stands at ANY position and to answer exactly "next four bytes are PBMP"; WriteCustomTileset proved against the format description (total length; PBMP length, pixel height and pixel-section length byte by byte; palette entry gi with red/blue exchanged; non-tilesets refused with nothing written); SwapPaletteRedAndBlue proved for every entry of a palette of any length; ReadCustomTileset proved on arbitrary bytes: memory safe, no undefined arithmetic (after fix D20), short inputs refused, exact consumption 1096 + |pixels|, result 8 bit / 32 wide / height a multiple of 32 / 256 colours / 32*|height| pixel bytes.',
       'ASSUMED: BitmapFile::InvertScanLines (negates height, same pixel count), BitmapFile::SwapRedAndBlue (frame). NOT decided: pixel and palette CONTENT through read and write (the picture round trip), orientation of the loaded picture for headers announcing more than 2^31 rows, tilesets of more than 2^27 - 64 rows (4 GiB; the 32-bit length fields wrap and the writer does not refuse). One trusted constant: PBMP section length 1068 + 32*h cannot be confirmed against the game offline.')
 claim('C10', 'PRT cross-field rule check (ValidateImageMetadata: scan line = width rounded up to 4, palette index names an existing palette) proved with a loop contract for any number of images; canonical palette header (PPAL 1048 / head 4 / 1 / data 1024) and its validator proved; SectionHeader constructors/validator proved; ReadFrame / WriteFrame proved against the frame grammar for every flag combination and count; ReadAnimations proved memory safe on arbitrary bytes and to run the count verification on EVERY normal return with exactly the totals the section header announces (also for files without animations).',
@@ -268,7 +272,7 @@ claim('C11', 'Validators that guard the loaders are proved total and exact (ever
 claim('C18', 'Two-run relational checks (uninitialised storage is independent nondeterministic data in each run) prove that every byte of each record built by the record constructors is determined by the arguments: MapHeader, Map (all serialised members incl. clipRect), ImageHeader::Create, BmpHeader::Create, SectionHeader, TilesetHeader::Create, PpalHeader::Create, PaletteHeader::CreatePaletteHeader.',
       'NOT decided yet: VOL/CLM record constructors, partially-assigning parsers (ReadFrame, ReadTilesetSources), writers byte-exact postconditions; input order / path spelling (std::sort, std::filesystem).')
 NOT_DECIDED.update({
- 'C08': ['InvertScanLines, CreateIndexed 4/5-argument overloads, pixel round trip', 'WritePixels / WriteIndexed: bounded (<= 3 rows)'],
+ 'C08': ['CreateIndexed 4/5-argument overloads, pixel content through write + read', 'InvertScanLines / WritePixels / WriteIndexed: bounded (<= 3 rows)'],
  'C09': ['pixel/palette content through read and write (picture round trip)', 'tilesets above 2^27 - 64 rows', 'PBMP length constant vs the game (trusted)'],
  'C10': ['CountFrames arithmetic, palette swap on read/write, structure round trip'],
  'C11': ['ArtFile ReadPalette/ReadImageMetadata/ReadAnimation bodies, SpriteLoader::ExtractImage', 'follow-up operations on loaded objects; resource exhaustion'],
@@ -365,20 +369,20 @@ for fn_, rc_ in (('ReadImplementation', EXC2), ('ReadPartial', NOEXC), ('Length'
 # ---- U-VOLR (C05, C02, C13, C17)
 KF = ['Fr_Read', 'Fr_Length', 'Fr_Position', 'Fr_Seek', 'Fr_SeekForward', 'Fr_Slice2', 'Fr_Slice1']
 KF_TRUST = ['K_F (contracts/kf.h): use-mode, content-free projection of the FileReader contracts proved in unit filer over the ifstream model; FileSliceReader construction by unit slice',
-            'std::vector<IndexEntry>::resize, VolFile::ReadStringTable (vector<string> construction), ExtractFileUncompressed/ExtractFileLzh: assumed abstract contracts in contracts/volr.contracts']
+            'std::vector<IndexEntry>::resize, VolFile::ReadStringTable (vector<string> construction), ExtractFileLzh: assumed abstract contract in contracts/volr.contracts']
 VR = KF + ['VolFile_VerifyIndexInBounds', 'vec_VolIndexEntry_resize', 'VolFile_ReadStringTable', 'VolFile_ExtractFileUncompressed', 'VolFile_ExtractFileLzh']
 def volr(fn, props, reach=EXC2, replace=(), **kw):
     G('volr.' + fn, props, 'volr', 'VolFile_' + fn, replace=VR + list(replace), reach=reach, trusted=KF_TRUST, replay={'driver': 'volr_replay.cpp', 'case': fn}, **kw)
 volr('GetName', ['C05', 'C17']); volr('GetCompressionCode', ['C05', 'C17', 'C02']); volr('GetSize', ['C05', 'C17', 'C02'])
 volr('GetSectionHeader', ['C05', 'C13']); volr('OpenStream', ['C05', 'C13', 'C02'], replace=['VolFile_GetSectionHeader'])
-volr('ExtractFile', ['C05', 'C17']); volr('ReadTag', ['C05', 'C02']); volr('CountValidEntries', ['C05', 'C02'], reach=NOEXC)
+volr('ExtractFile', ['C05', 'C17']); volr('ExtractFileUncompressed', ['C05', 'C01', 'C02'], replace=['VolFile_GetSectionHeader', 'Wr_WriteSliceT', 'FileWriter_ctor']); volr('ReadTag', ['C05', 'C02']); volr('CountValidEntries', ['C05', 'C02'], reach=NOEXC)
 volr('ReadVolHeader', ['C05', 'C02'], replace=['VolFile_ReadTag', 'VolFile_CountValidEntries'], timeout=600, flags=['--object-bits', '12'])
 claim('C05', 'FileReader is proved over the assumed std::ifstream model: a read that does not fit throws and leaves the reader usable at the old position (K_F); on top of K_F, opening ARBITRARY bytes as a VOL either fails or establishes the archive invariant (counted entries have an index record and a name; index storage never overrun), every per-member call refuses out-of-range indices and keeps the invariant on both exits, OpenStream returns exactly the recorded extent and refuses extents outside the file; the WAV chunk walk (FindChunk) is memory safe and terminates on arbitrary bytes; CLM header checks proved; the CLM reading side (ReadHeader, GetName, GetSize, OpenStream, ExtractFile) proved over K_F: arbitrary bytes either fail or establish count == |index|, the index read never leaves the index storage, every per-member call refuses out-of-range indices and leaves the archive (including the shared reader position) untouched on both exits, extents outside the file are refused; ReadAllWaveHeaders memory safe on arbitrary files; slice construction and the LZH bit reader (groups shared with C13/C04) refuse or stay in bounds for every input.',
-      'ASSUMED: ifstream model; ReadStringTable (vector<string> construction), VolFile ExtractFile* bodies, vector resize/assignment, IndexEntry::GetFilename as abstract contracts. NOT decided: ExtractAllFiles, LZH decode loop of ExtractFileLzh, resource exhaustion (a CLM header may announce 2^32 index entries).')
+      'ExtractFileUncompressed proved: every refusal (index, block header, extent) precedes creation of the output file, a successful extraction stays inside the file. ASSUMED: ifstream model; ReadStringTable (vector<string> construction), VolFile::ExtractFileLzh body, vector resize/assignment, IndexEntry::GetFilename as abstract contracts. NOT decided: ExtractAllFiles, LZH decode loop of ExtractFileLzh, resource exhaustion (a CLM header may announce 2^32 index entries).')
 claim('C17', 'GetIndex proved (cvc5, any member count) to throw iff no member matches and otherwise to return the least matching index; Contains proved equivalent to "some member matches", hence Contains(n) <=> GetIndex(n) does not throw, and GetIndex(GetName(i)) == i for duplicate-free archives; VerifyIndexInBounds and every VolFile per-member call refuse out-of-range indices.',
       'PathsAreEqual is an uninterpreted deterministic relation: its case and "./" insensitivity, directory listings, regex/extension matching, archive discovery and ResourceManager precedence are NOT decided (std::filesystem / std::regex / unique_ptr vectors; no extractable repository code).')
 NOT_DECIDED.update({
- 'C05': ['ReadStringTable content, VolFile ExtractFile* bodies, ExtractAllFiles, resource exhaustion'],
+ 'C05': ['ReadStringTable content, VolFile::ExtractFileLzh body, ExtractAllFiles, resource exhaustion'],
  'C17': ['PathsAreEqual case/"./" folding (std::filesystem)', 'ResourceManager::GetResourceStream precedence, listings, regex and extension matching, archive discovery'],
 })
 
